@@ -345,6 +345,12 @@ var c19Accepts = []struct {
 	{hdr: []string{";;;"}, bad: true},
 	{hdr: []string{"application/json; q"}, bad: true},
 	{hdr: []string{"image/*"}, bad: true},
+	// a malformed element after acceptable ones, on the same line
+	{hdr: []string{"application/json, ;q=0.5"}, bad: true},
+	{hdr: []string{"application/x-ndjson, /"}, bad: true},
+	{hdr: []string{"application/json, application/x-ndjson, ;;;"}, bad: true},
+	{hdr: []string{"*/*, ;"}, bad: true},
+	{hdr: []string{"application/json", ";;;"}, bad: true},
 }
 
 func c19Raw(r *simkit.Run, t *simkit.Task, net *simkit.Net, fs *findServer, ctx context.Context, base, mhType, cidType string, preferJSON bool, mhs []multihash.Multihash, absent multihash.Multihash) {
